@@ -10,6 +10,7 @@ require (
 	github.com/cosmos/cosmos-sdk v0.50.13
 	github.com/ethereum/go-ethereum v1.13.15
 	github.com/palomachain/paloma/v2 v2.0.0
+	golang.org/x/mod v0.19.0
 )
 
 require (
@@ -178,7 +179,6 @@ require (
 	go.opentelemetry.io/otel/trace v1.24.0 // indirect
 	golang.org/x/crypto v0.27.0 // indirect
 	golang.org/x/exp v0.0.0-20240404231335-c0f41cb1a7a0 // indirect
-	golang.org/x/mod v0.19.0 // indirect
 	golang.org/x/net v0.29.0 // indirect
 	golang.org/x/oauth2 v0.22.0 // indirect
 	golang.org/x/sync v0.8.0 // indirect
